@@ -35,6 +35,17 @@ func main() {
 		os.Exit(cmdChild(os.Args[2:]))
 	case "replay":
 		os.Exit(cmdReplay(os.Args[2:]))
+	case "transcript":
+		fs := flag.NewFlagSet("transcript", flag.ExitOnError)
+		scripts := fs.String("scripts", "", "")
+		trace := fs.Bool("trace", false, "")
+		seed := fs.Uint64("seed", 1, "")
+		fs.Parse(os.Args[2:])
+		var names []string
+		if *scripts != "" {
+			names = strings.Split(*scripts, ",")
+		}
+		os.Exit(eng.TranscriptMain(names, *trace, *seed))
 	case "list":
 		ids := []string{}
 		for id := range eng.Engines {
